@@ -185,6 +185,14 @@ class Conv:
         return None
 
     # ---- device expressions ---------------------------------------------------------------
+    def struct_of(self, name):
+        """the device object bound to a name: a function's own binding first, then the module's"""
+        if self.scope_name and (self.mod, self.scope_name + ":" + name) in self.structs:
+            return self.structs[(self.mod, self.scope_name + ":" + name)]
+        if self.locals is not None and name in self.locals:
+            return None
+        return self.structs.get((self.mod, name))
+
     def device_of(self, e):
         """('pin', node id of the device operand) | ('plural', hash) | ('named', hash, name node) for a device-valued expression"""
         if isinstance(e, ast.Name):
@@ -192,13 +200,14 @@ class Conv:
                 return ("pin", self.const(dev_atom(e.id)))
             if e.id in self.T.plural:
                 return ("plural", crc(self.T.plural[e.id]))
-            key = (self.mod, e.id)
-            if key in self.structs:
-                s = self.structs[key]
+            s = self.struct_of(e.id)
+            if s is not None:
                 if s[0] == "pin":
                     return ("pin", self.const(dev_atom(s[1])), s[2] if len(s) > 2 else None)
                 if s[0] == "stack":
                     raise Outside("stack object used as a device")
+                if s[0] in ("named", "named_m"):
+                    s = s[:2] + (self.num(crc(s[2][1])),) + s[3:]
                 return s
         if isinstance(e, ast.Call) and isinstance(e.func, ast.Name) and e.func.id in self.T.singular and len(e.args) == 1 and not e.keywords \
                 and isinstance(e.args[0], ast.Name) and e.args[0].id in PINS:
@@ -218,8 +227,8 @@ class Conv:
         returns (read_kind, write_kind, operand node ids) or None"""
         if isinstance(e, ast.Subscript) and isinstance(e.value, ast.Name) and e.value.id == "stack" and self.var("stack")[0] == "g":
             return ("mem", "memwrite", [self.expr(e.slice)])
-        if isinstance(e, ast.Subscript) and isinstance(e.value, ast.Name) and self.structs.get((self.mod, e.value.id), ("",))[0] == "stack":
-            pin = self.structs[(self.mod, e.value.id)][1]
+        if isinstance(e, ast.Subscript) and isinstance(e.value, ast.Name) and (self.struct_of(e.value.id) or ("",))[0] == "stack":
+            pin = self.struct_of(e.value.id)[1]
             if pin == "db":
                 return ("mem", "memwrite", [self.expr(e.slice)])
             return ("get", "put", [self.const(dev_atom(pin)), self.expr(e.slice)])
@@ -261,6 +270,10 @@ class Conv:
                     return ("lb", None, [self.num(d[1]), lt, bm])
                 return ("lbn", None, [self.num(d[1]), d[2], lt, bm])
         d = self.device_of(base)
+        if d[0] == "plural_m":
+            return ("lb", None, [self.num(d[1]), self.num(self.T.lt(e.attr)), self.num(self.T.bm(d[2]))])
+        if d[0] == "named_m":
+            return ("lbn", None, [self.num(d[1]), d[2], self.num(self.T.lt(e.attr)), self.num(self.T.bm(d[3]))])
         if d[0] == "pin":
             return ("l", "s", [d[1], self.num(self.T.lt(e.attr))])
         if d[0] == "plural":
@@ -276,7 +289,7 @@ class Conv:
             return self.const(cv)
         if isinstance(e, ast.Name):
             key = (self.mod, self.scope_name, e.id)
-            if e.id in PINS or e.id in self.T.plural or (self.mod, e.id) in self.structs:
+            if e.id in PINS or e.id in self.T.plural or self.struct_of(e.id) is not None:
                 raise Outside("device used as a value")
             sc, q = self.var(e.id)
             return self.node("name", sc=sc, name=q)
@@ -410,7 +423,7 @@ class Conv:
                 raise Outside("multiple targets")
             t = s.targets[0]
             if isinstance(t, ast.Name):
-                if (self.mod, t.id) in self.structs or (self.mod, self.scope_name, t.id) in self.lists:
+                if self.static_device(s.value) is not None or (self.mod, self.scope_name, t.id) in self.lists:
                     return None  # structure / constant-list binding: handled statically
                 sc, q = self.var(t.id)
                 v = self.expr(s.value)
@@ -503,15 +516,33 @@ class Conv:
                 t, v = s.targets[0].id, s.value
                 if isinstance(v, (ast.List, ast.Tuple)):
                     self.lists[(mod, scope, t)] = [self.const_value(x) for x in v.elts]
-                if scope == "":
-                    if isinstance(v, ast.Name) and v.id in self.T.plural:
-                        self.structs[(mod, t)] = ("plural", crc(self.T.plural[v.id]))
-                    elif isinstance(v, ast.Call) and isinstance(v.func, ast.Name) and v.func.id in self.T.singular and len(v.args) == 1 \
-                            and not v.keywords and isinstance(v.args[0], ast.Name) and v.args[0].id in PINS:
-                        self.structs[(mod, t)] = ("pin", v.args[0].id, v.func.id)
-                    elif isinstance(v, ast.Call) and isinstance(v.func, ast.Name) and v.func.id == "Stack" and len(v.args) == 1 \
-                            and not v.keywords and isinstance(v.args[0], ast.Name) and v.args[0].id in PINS:
-                        self.structs[(mod, t)] = ("stack", v.args[0].id)
+                # a name bound to a device object (module level, or local to a function: key (mod, "fn:name"))
+                key = (mod, t) if scope == "" else (mod, scope + ":" + t)
+                st = self.static_device(v)
+                if st is not None:
+                    if key in self.structs and self.structs[key] != st:
+                        raise Outside("device name bound twice")
+                    self.structs[key] = st
+
+    def static_device(self, v):
+        """the device object a right-hand side denotes, or None: Plural, Plural["name"], either with a batch method,
+        Typed(dN) (alias=... only names the pin in the emitted text), Stack(dN)"""
+        if isinstance(v, ast.Name) and v.id in self.T.plural:
+            return ("plural", crc(self.T.plural[v.id]))
+        if isinstance(v, ast.Call) and isinstance(v.func, ast.Name) and len(v.args) == 1 and isinstance(v.args[0], ast.Name) and v.args[0].id in PINS \
+                and all(k.arg == "alias" and isinstance(k.value, ast.Constant) for k in v.keywords):
+            if v.func.id in self.T.singular:
+                return ("pin", v.args[0].id, v.func.id)
+            if v.func.id == "Stack" and not v.keywords:
+                return ("stack", v.args[0].id)
+        if isinstance(v, ast.Subscript) and isinstance(v.value, ast.Name) and v.value.id in self.T.plural \
+                and isinstance(v.slice, ast.Constant) and isinstance(v.slice.value, str):
+            return ("named", crc(self.T.plural[v.value.id]), ("hashname", v.slice.value))
+        if isinstance(v, ast.Attribute) and v.attr in BATCH:
+            b = self.static_device(v.value)
+            if b is not None and b[0] in ("plural", "named"):
+                return (b[0] + "_m",) + tuple(b[1:]) + (v.attr,)
+        return None
 
     def convert(self):
         self.fn_defs = {}
